@@ -174,6 +174,54 @@ def file_worker(kp, job):
     return {'records': records}
 
 
+def big_file_worker(kp, job):
+    """the file converter on ekern files whose header line lies deep inside the file (kilobytes of reference records and
+    comments before it), placed around every power-of-two offset a block-wise reader could cut at: the converted file is
+    what get_kern_from_ekern returns for the whole text; and kern -> ekern of a file with such a preamble equals the API"""
+    seed, idx = job
+    rng = random.Random(seed * 860946001 + idx)
+    tmp = tempfile.mkdtemp(prefix='kvc20big_')
+    records = []
+    try:
+        import kernpy.core.exporter as E
+        conv = getattr(kp, 'ekern_to_krn', None) or getattr(E, 'ekern_to_krn')
+        body = '**ekern\t**text\t**ekern\n*clefG2\t*\t*clefF4\n4@c\u00b7L\tla\t8.@dd@#\n=\t=\t=\n*-\t*-\t*-\n'
+        blocks = [256, 512, 1024, 2048, 4096, 8192, 16384, 65536]
+        for B in blocks:
+            for back in (1, 3, 6, 9, rng.randint(1, 20)):
+                target = B * rng.choice([1, 1, 2, 3]) - back          # the header line starts here
+                pre, k = '', 0
+                while len(pre) < target:
+                    k += 1
+                    line = f'!!!REF{k}: ' + 'x' * rng.randint(10, 70) + '\n'
+                    if len(pre) + len(line) > target:
+                        line = '!!' + 'y' * max(0, target - len(pre) - 3) + '\n'
+                    pre += line
+                if len(pre) != target:
+                    continue
+                text = pre + body
+                src = os.path.join(tmp, f'in_{B}_{back}.ekrn')
+                out = os.path.join(tmp, f'out_{B}_{back}.krn')
+                with open(src, 'w', encoding='utf-8', newline='') as f:
+                    f.write(text)
+                viol = []
+                try:
+                    conv(src, out)
+                    got = open(out, encoding='utf-8', newline='').read()
+                except Exception as e:
+                    got = 'raise:' + type(e).__name__
+                want = kp.get_kern_from_ekern(text)
+                if got != want:
+                    k_ = next((i for i in range(min(len(got), len(want))) if got[i] != want[i]), min(len(got), len(want)))
+                    viol.append(('cli-ekern2kern', f'an ekern file whose header line starts at character {target}: the converted file differs from '
+                                                   f'get_kern_from_ekern(text) at character {k_} ({got[k_:k_ + 12]!r} vs {want[k_:k_ + 12]!r})',
+                                 {'header_offset': target, 'preamble_lines': k, 'body': body}))
+                records.append(engine.rec('big-file', viol=viol, kind='big-file', key=('big-file', B, back, target)))
+    finally:
+        shutil.rmtree(tmp, ignore_errors=True)
+    return {'records': records}
+
+
 def cli_worker(kp, job):
     seed, idx = job
     rng = random.Random(seed * 236887691 + idx)
@@ -288,10 +336,11 @@ def run(chk):
     ncli = 12 if full else 3
     chk.rule = ('generated documents written to real temporary files with LF / CRLF / CR line ends, with and without final newline, '
                 'non-ASCII lyrics (every 11th with the extra separators of str.splitlines: finding K9): load vs loads (whole tree), '
-                'dump vs dumps for 3 option sets into missing directories; dump with an option set whose export raises (same error, existing file untouched, no file created); python -m kernpy subprocesses: single-file kern2ekern, '
+                'dump vs dumps for 3 option sets into missing directories; the ekern -> kern file converter on files whose header line lies around power-of-two offsets; dump with an option set whose export raises (same error, existing file untouched, no file created); python -m kernpy subprocesses: single-file kern2ekern, '
                 'ekern2kern and back, directory mode (both directions, with and without --output_path) with and without -r over a tree with .krn / .kern / other files, the same file names in several directories; '
                 'non-trivial = distinct (text, operation)')
     results = engine.pmap(file_worker, [(chk.seed, i) for i in range(nfile)]) + engine.pmap(cli_worker, [(chk.seed, i) for i in range(ncli)], nproc=min(ncli, 6))
+    results += engine.pmap(big_file_worker, [(chk.seed, i) for i in range(2 if not full else 8)])
     engine.settle(chk, results, model)
     chk.notes['partial'] = 'open()/encodings/makedirs/argparse/glob/process behaviour are exercised on real files and subprocesses, not proved'
     chk.disagreements_checked = len(chk.broken)
